@@ -67,8 +67,14 @@ Lemma cache_get_del_other (c : cache) (k k' : ckey) :
 Proof.
   intro H. induction c as [|[k0 v0] c IH]; simpl; [reflexivity|].
   destruct (ckey_eqb k0 k') eqn:E.
-  - apply ckey_eqb_eq in E. subst k0. rewrite H. reflexivity.
+  - apply ckey_eqb_eq in E. subst k0. rewrite H. exact IH.
   - simpl. destruct (ckey_eqb k0 k); [reflexivity|exact IH].
+Qed.
+
+Lemma cache_get_del_same (c : cache) (k : ckey) : cache_get (cache_del c k) k = None.
+Proof.
+  induction c as [|[k0 v0] c IH]; simpl; [reflexivity|].
+  destruct (ckey_eqb k0 k) eqn:E; [exact IH|]. simpl. rewrite E. exact IH.
 Qed.
 
 Lemma list_set_length {A} (l : list A) i x : List.length (list_set l i x) = List.length l.
